@@ -103,6 +103,12 @@ def callOk (e : CallerHolds) (c : Call) : Bool :=
 def callerHoldsOk (calls : List Call) (e : CallerHolds) : Bool :=
   calls.any (·.callee == e.fn) && calls.all (callOk T e)
 
+/-- the call is made with a mutex held (lexically, or by every caller of the calling helper) that the callee locks
+again in its own body: a certain deadlock for `Lock`, and for `RLock` a deadlock as soon as a writer queues in
+between (sync.RWMutex blocks new readers behind a waiting writer) -/
+def reentrant (acqs : List Acq) (c : Call) : Bool :=
+  (effHeld T c.caller c.held).any (fun h => acqs.any (fun a => a.fn == c.callee && canon T a.lock == h.lock))
+
 def nameOf (i : Nat) : String := names.getD i "?"
 
 def describePair (r s : Access) : String :=
